@@ -320,6 +320,7 @@ impl BeatInfo {
         let mut instance = Instance {
             ip: Arc::new(self.ip.unwrap_or("unknown".to_string())),
             port: self.port.unwrap_or(1),
+            weight: self.weight.unwrap_or(1f32),
             cluster_name: NamingUtils::default_cluster(
                 self.cluster.as_ref().unwrap_or(&"".to_owned()).to_owned(),
             ),
